@@ -15,7 +15,7 @@ from .csrc import ExtractError
 # rules whose case body is translated into the IR and proved equal to the Op.step case in Peg/TieSkel.lean
 IR_RULES = ["RULE_IF", "RULE_IFNOT", "RULE_NOT", "RULE_DROP", "RULE_ONLY_TAGS", "RULE_SUB", "RULE_ACCUMULATE", "RULE_CAPTURE",
             "RULE_POSITION", "RULE_CONSTANT", "RULE_GROUP", "RULE_NTH", "RULE_ERROR", "RULE_BETWEEN", "RULE_TO", "RULE_THRU", "RULE_TIL", "RULE_CHOICE", "RULE_SEQUENCE", "RULE_LENPREFIX", "RULE_SPLIT", "RULE_REPLACE", "RULE_MATCHTIME", "RULE_NCHAR", "RULE_NOTNCHAR", "RULE_LINE", "RULE_COLUMN", "RULE_ARGUMENT",
-            "RULE_LITERAL", "RULE_RANGE", "RULE_SET", "RULE_LOOK", "RULE_GETTAG", "RULE_BACKMATCH", "RULE_CAPTURE_NUM"]
+            "RULE_LITERAL", "RULE_RANGE", "RULE_SET", "RULE_LOOK", "RULE_GETTAG", "RULE_BACKMATCH", "RULE_CAPTURE_NUM", "RULE_UNREF"]
 
 
 class Unsupported(Exception):
